@@ -27,9 +27,8 @@ package rrc
 //@ ensures no-wrap: result == nil && !SAME() ==> m.paths[KEY()].sentBytes >= old(m.paths[KEY()].sentBytes)
 //@ ensures within-three-times: result == nil && !SAME() && m.paths[KEY()].receivedBytes <= 6148914691236517205
 //@    ==> old(m.paths[KEY()].sentBytes) + uint64(wireBytes) <= 3*m.paths[KEY()].receivedBytes
-//@ ensures negative-rejected: wireBytes < 0 && !SAME() ==> result != nil
-//@ ensures negative-rejected-below-saturation: wireBytes < 0 && !SAME() && old(m.paths[KEY()]) != nil
-//@    && old(m.paths[KEY()].receivedBytes) <= 6148914691236517205 ==> result != nil
+//@ ensures negative-rejected-while-budget-below-2p63: wireBytes < 0 && !SAME() && old(m.paths[KEY()]) != nil
+//@    && old(m.paths[KEY()].receivedBytes) <= 3074457345618258602 ==> result != nil
 //@ ensures unknown-path-rejected: !SAME() && old(m.paths[KEY()]) == nil ==> result != nil
 //@ ensures expired-rejected: called("time.Time.Before") && !retBool("time.Time.Before", 0) ==> result != nil
 //@ ensures rejected-unchanged: result != nil || SAME() ==> forallKey(m.paths, func(k string) bool {
@@ -40,6 +39,11 @@ package rrc
 //@ ensures map-unchanged: sameRef(m.paths, old(m.paths)) && len(m.paths) == old(len(m.paths))
 //@    && forallKey(m.paths, func(k string) bool { return m.paths[k] == old(m.paths[k]) })
 //@ ensures unlocked: !held("Manager.mu")
+// FINDING (kept last so that it is not assumed by other clauses): a negative wireBytes is converted to
+// uint64 (>= 2^63) and is accepted whenever limit-sentBytes >= that value, i.e. once 3*receivedBytes
+// reaches 2^63 (receivedBytes > 3074457345618258602). Replayed: receivedBytes = (2^64-1)/3+1,
+// sentBytes = 0, Reserve(addr, active, -1) returns nil and sets sentBytes = 2^64-1.
+//@ ensures negative-rejected: wireBytes < 0 && !SAME() ==> result != nil
 //@ end
 
 // PL() is the path object returned by pathLocked for the address argument; KEPT(k) says that key k
